@@ -227,6 +227,37 @@ TECH = {
     'C06': "Lean 4 invariant proofs over the task-level session machine and its product with the application layer + step-log replay correspondence",
     'C07': "Lean 4 invariant proofs over the session machine + byte-level progress theorems for both readers + step-log / reader-log replay correspondence",
 }
+EXT2 = {
+    'C01': "Round 6: re-encode histories on one message object (Model/BinObj: value tree + path updates; Props/C01Reenc: every encoding of every history is a "
+           "function of the current tree and round-trips; Witness/C01Reenc: a shallow-snapshot cache is wrong exactly below the top level).",
+    'C03': "Round 5: Props/C03Handler - the reader with a SUSPENDED on_msg_coro (data appended while the handler awaits, wake-ups, length-matched appends) refines the "
+           "poll model; prefix and completeness for soup and FIX over all such event lists; bursts of 1.2-2 MiB.",
+    'C04': "Props/C04Drain: every fully received message is delivered within a bounded number of reader ticks (explicit drain cost, heartbeats cost one tick each, "
+           "callback and pull mode). Props/C04Bytes is unconditional for FIX since /repo 658ee1f (negative BodyLength is a malformed frame).",
+    'C05': "Round 6: Props/C05Flow and the C05 scenario family on a transport that pauses writing (every close trigger issued while write-paused).",
+    'C08': "Round 5: Model/MonitorFlow, Props/C08Flow - pause_writing/resume_writing are erasable from every history (the session never consults them), so the gap "
+           "bound and the heartbeat-at-tick characterisation hold under write flow control; FakeTransport models the write buffer's water marks.",
+    'C09': "Round 5: Props/C09Flow (silence closes / a live peer is never dropped, with flow-control events in the history); awaiting message callbacks across the "
+           "trip instant and bursts of thousands of frames with a live peer in the correspondence.",
+    'C10': "Rounds 5-6: several sessions alive in one process (Model/SeqMulti, Props/C10Multi: per-session counters are independent); message OBJECTS that carry a "
+           "number from an earlier send, from the peer or from the application (Model/SeqObj, Props/C10Obj: the session never reads an object's number; k-th frame "
+           "clause over all object histories); Props/C10Flow: heartbeats during a write-paused window.",
+    'C11': "Props/C11Unique: a login caller returns at most once, exactly one of the outcomes, outcomes mutually exclusive.",
+    'C12': "Round 5: Props/C12Via - every decode entry point (SoupMessage.from_bytes and from_bytes on each concrete class) x every type byte, table extracted per run.",
+    'C13': "Rounds 5-6: Props/C13Order (several header/trailer entries assigned in any order: equality is order-sensitive and the decoded copy keeps the wire order), "
+           "Props/C13Short (3-byte group instances, empty values, group last), Props/C13SharedGen (shared tags, general form).",
+    'C14': "Round 6: Props/C14Resend - one message object sent several times with in-place changes at any depth between the sends.",
+    'C15': "Rounds 5-6: Props/C15Enum (an enum default denotes the member with that VALUE whatever the member names), Props/C15Defs (12 theorems: a def-reference leaves "
+           "the definitions table unchanged; the meaning of a field is local to enums / fielddefs / record names).",
+    'C16': "Round 5: Props/C16Enum + Spec/FixDictEnum (enumeration tables of the generated classes equal the dictionary's, XML-special characters included: /repo 8c9ad6b).",
+    'C17': "Round 6: Props/C17Reuse (one parsed specification object handed to several generators).",
+    'C19': "Round 5: Props/C19Names (definition site, module and class name are irrelevant to the registry; a redefinition under the same name is rejected; the first "
+           "class survives any later attempts).",
+    'C20': "Rounds 5-6: Props/C20Raise (the call's outcome is the coroutine's own outcome, including a coroutine that raises TimeoutError; an untimed call never ends "
+           "with the slice expiry: /repo ea90e75), deterministic stop-after-check scenarios.",
+}
+for _p, _t in EXT2.items():
+    EXT[_p] = (EXT.get(_p, '') + ' ' + _t).strip()
 for _p, _t in EXT.items():
     CLAIMS[_p]['text'] = CLAIMS[_p]['text'].replace(
         " Partial: the two-outcome statement is a family of step theorems rather than one trace theorem; the connectors of the four application layers are exercised by the oracle only.", "").replace(
